@@ -156,6 +156,23 @@ SwapResult(N, A, d) ==
     [] d.k = "HH" -> HitchHikeF(N, A, d.a, d.p)
     [] d.k = "RN" -> RemoveNodeF(N, A, d.a, d.p)
 
+\* which branch of its swap a (successful) candidate took: coverage only, never judged
+SwapBranch(N, A, d) ==
+  CASE d.k = "PE" ->
+         LET disp == OverrideDisplaced(N, A, d.p, d.r, d.a, d.b)
+             A1   == OverrideRes(N, A, d.p, d.r, d.a, d.b, NEWD)
+             who  == (IF IsDummy(A, d.p) THEN "dummy" ELSE "real") \o "->" \o (IF IsDummy(A, d.r) THEN "dummy" ELSE "real")
+         IN "PE:" \o who \o ":" \o
+            (IF disp = << >> THEN "no_conflict"
+             ELSE IF ~Exists(A1, d.p) THEN (IF IsDummy(A, d.p) THEN "provider_dummy_gone" ELSE "provider_replaced_by_new_vehicle")
+             ELSE LET f == FitRun(N, A1, NEWD, d.p, disp[1], Last(disp))
+                  IN IF f.moved = << >> THEN "fit_nothing"
+                     ELSE IF f.tp = << >> THEN "fit_all" ELSE "fit_some")
+    [] d.k = "SM" -> IF AddPathRet(N, A, d.p, <<d.a>>) = << >> THEN "SM:no_conflict" ELSE "SM:conflict_gets_new_vehicle"
+    [] d.k = "HH" -> "HH"
+    [] d.k = "RN" -> IF Acts(N, A.tours[d.p]) = <<d.a>> THEN "RN:vehicle_deleted"
+                     ELSE IF N.nd[d.a].k = "mnt" THEN "RN:slot" ELSE "RN:trip"
+
 Tried(N, A, L, H) ==
   {DescSM(m, v) : m \in {m \in MaintIds(N) : Len(A.form[m]) < N.nd[m].tracks}, v \in RealIds(A)}
   \cup UNION {{DescPE(P, R, sg[1], sg[2]) : sg \in Segments(N, A, P, L, H), R \in (RealIds(A) \cup DummyIds(A)) \ {P}}
